@@ -14,7 +14,7 @@
    lazy-memory sizes; "legal configuration" is exactly `sort_ctor es c = CtorOk b`. *)
 From Coq Require Import List NArith Bool Sorting.Sorted Sorting.Permutation.
 From Kenlm Require Import C16.SortModel C16.MergeProofs C16.SortProofs C16.ProgressProofs C16.CombineProofs
-  C16.OrderProofs C16.OffsetsProofs C16.MainProofs C16.SmallProofs.
+  C16.OrderProofs C16.OffsetsProofs C16.MainProofs C16.SmallProofs C16.ReadBackModel C16.ReadBackProofs.
 Import ListNotations.
 Local Open Scope N_scope.
 
@@ -168,3 +168,17 @@ Theorem C16_combiner_canonical :
   sort_dispatch lt combine es m2 b2 (cfg_total c2) lazy2 runs2 = (SortOk out2 tr2, r2) ->
   out1 = out2.
 Proof. exact @combiner_canonical. Qed.
+
+(* The read-back path.  The sort model treats the disk as lists of records; what stands behind that abstraction is
+   util::ErsatzPRead (the only read primitive of MergeQueue::Entry::Read and MergingReader::ReadSingle), whose pread may
+   return fewer bytes than requested -- always for requests >= 2 GiB - 4 KiB, on network file systems, after a signal.
+   For EVERY dictated sequence of short returns and EINTRs: if ErsatzPRead returns, the buffer holds exactly bytes
+   [off, off+size) of the file; and it does return when the range lies inside the file and each pread transfers >= 1 byte. *)
+Theorem C16_ersatz_pread_any_split : forall (A : Type) o (file : list A) size off calls g c,
+  ersatz_pread o file size off calls = PROk g c -> g = firstn size (skipn off file) /\ length g = size.
+Proof. exact @ersatz_pread_any_split. Qed.
+
+Theorem C16_ersatz_pread_returns : forall (A : Type) o (file : list A) size off calls, (off + size <= length file)%nat ->
+  (forall k, In (Short k) o -> (1 <= k)%nat) -> (size <= count_short o)%nat ->
+  exists g c, ersatz_pread o file size off calls = PROk g c.
+Proof. exact @ersatz_pread_returns. Qed.
